@@ -31,7 +31,7 @@ def eq_catalogue():
 class LabelledSystem:
     """A real EquationSystem whose equations are sum_v SparseArray(M_ev) @ v + DenseArray(c_e) with coded entries."""
 
-    def __init__(self):
+    def __init__(self, vars_spec=None, cat=None):
         import porepy as pp
 
         self.pp = pp
@@ -40,8 +40,9 @@ class LabelledSystem:
         self.es = pp.ad.EquationSystem(self.mdg)
         self.vreg, self.var_obj = [], {}
         vid = 0
-        for name, d, dom in VARS:
-            idx = fx.domains()[dom - 1]
+        if vars_spec is None:
+            vars_spec = [(name, d, fx.domains()[dom - 1]) for name, d, dom in VARS]
+        for name, d, idx in vars_spec:
             objs = [self.gs[i - 1][1] for i in idx]
             kw = dict(subdomains=objs) if self.gs[idx[0] - 1][0] == "sd" else dict(interfaces=objs)
             md = self.es.create_variables(name, fx.dof_info(d), **kw)
@@ -57,7 +58,7 @@ class LabelledSystem:
                 self.col_id[(r["vid"], j)] = len(self.col_label)
                 self.col_label.append([r["vid"], j])
         # row labels
-        self.cat = eq_catalogue()
+        self.cat = cat if cat is not None else eq_catalogue()
         self.row_id, self.row_label = {}, []
         for e, c in enumerate(self.cat, 1):
             for gi in c["grids"]:
@@ -71,10 +72,22 @@ class LabelledSystem:
             self.es.set_variable_values(np.zeros(self.ndof[r["vid"]]), [self.var_obj[r["vid"]]], iterate_index=0)
             self.es.set_variable_values(np.zeros(self.ndof[r["vid"]]), [self.var_obj[r["vid"]]], time_step_index=0)
         self.ops = {}
+        self.numeric = None   # (J, b) in catalogue row order x col_label order: numeric instead of coded entries
 
     def operator(self, e):
         pp = self.pp
         rows = [self.row_id[(e, gi, k)] for (ee, gi, k) in map(tuple, self.row_label) if ee == e]
+        if self.numeric is not None:
+            # numeric system J x - b: row ids are 1-based positions in the catalogue's row order
+            J, b = self.numeric
+            ridx = [r - 1 for r in rows]
+            expr = pp.ad.DenseArray(-np.asarray(b, dtype=float)[ridx])
+            for r in self.vreg:
+                cidx = [self.col_id[(r["vid"], j)] for j in range(self.ndof[r["vid"]])]
+                M = np.asarray(J, dtype=float)[np.ix_(ridx, cidx)]
+                expr = expr + pp.ad.SparseArray(sps.csr_matrix(M)) @ self.var_obj[r["vid"]]
+            expr.set_name(f"e{e}")
+            return expr
         expr = pp.ad.DenseArray(np.array(rows, dtype=float))
         for r in self.vreg:
             n = self.ndof[r["vid"]]
